@@ -35,7 +35,39 @@ class E(enum.Enum):
 class IE(enum.IntEnum):
     x = 1
     y = 2
+import types as _types
+class GA:
+    def __getattr__(self, name):
+        if name.startswith("dyn"):
+            return 1
+        raise AttributeError(name)
+class SL:
+    __slots__ = ("a", "unset")
+    def __init__(self):
+        self.a = 1
+class PR:
+    @property
+    def good(self):
+        return 1
+    @property
+    def bad(self):
+        raise AttributeError("bad")
+GA_I = GA()
+SL_I = SL()
+PR_I = PR()
+MODGA = _types.ModuleType("modga")
+MODGA.present = 1
+MODGA.__getattr__ = lambda name: 2 if name.startswith("dyn") else (_ for _ in ()).throw(AttributeError(name))
 """
+
+AUGOPS = ["+", "-", "*", "//", "%", "**", "<<", "&", "|", "^", "@", "/", ">>"]
+CMPOPS = ["==", "!=", "is", "is not", "in", "not in"]
+INSTANCES = {"GA_I": ["dyn_x", "dynamic", "other", "__class__", "__getattr__", "zz"], "SL_I": ["a", "unset", "b", "__slots__", "zz"],
+             "PR_I": ["good", "bad", "ugly"], "MODGA": ["present", "dyn_y", "absent", "__name__", "zz"]}
+LIT_SUBSCRIPTS = [('"ab"', "0"), ('"ab"', "-1"), ('"ab"', "2"), ('"ab"', '"a"'), ('"ab"', "1:"), ('b"ab"', "0"), ('b"ab"', "5"), ('b"ab"', "None"),
+                  ("range(3)", "1"), ("range(3)", "5"), ("range(3)", '"a"'), ("range(3)", "::2"),
+                  ('{"a": 1}', '"a"'), ('{"a": 1}', '"b"'), ('{"a": 1}', "0"), ("{1: 2}", "1"), ("{1: 2}", "[]"), ("{1: 2}", "(1,)"), ("{}", "0"),
+                  ('{"a": 1, "b": (1, 2)}', '"b"'), ("{(1, 2): 3}", "(1, 2)"), ("{None: 1}", "None")]
 
 # the literal universe (source text); DESIGN.md 8a objects restricted to the
 # immutable kinds the property names
@@ -79,9 +111,10 @@ ATTR_POOL = [
 MEMBER_CLASSES = ["int", "str", "bytes", "A", "C"]
 MEMBER_SAMPLES = {"int": ["7", "0"], "str": ['"s"', '""'], "bytes": ['b"b"'], "A": ["A()"], "C": ["C()"]}
 
-RELEVANT = {"undefined_attribute", "unsupported_operation", "incompatible_call", "incompatible_argument", "not_callable", "internal_error"}
+RELEVANT = {"undefined_attribute", "unsupported_operation", "incompatible_call", "incompatible_argument", "not_callable", "internal_error",
+            "attribute_is_never_set", "unhashable_key"}
 # codes that are not about whether the operation is supported (lint / style / other properties)
-IGNORED_CODES = {"unused_variable", "unused_assignment", "value_always_true", "type_always_true", "use_fstrings", "possibly_undefined_name", "implicit_reexport"}
+IGNORED_CODES = {"unsafe_comparison", "unused_variable", "unused_assignment", "value_always_true", "type_always_true", "use_fstrings", "possibly_undefined_name", "implicit_reexport"}
 IGNORED_END_OF_REFERENCE = {"call_count", "assert_has_calls", "reset_mock", "called", "assert_called_once", "assert_called_once_with",
                             "assert_called_with", "count", "assert_any_call", "assert_not_called"}
 
@@ -108,6 +141,14 @@ def case_expr(c):
         return f"({c[1]}).{c[2]}"
     if k == "seq":
         return f"s[{c[3]}]"
+    if k == "aug":          # evaluated by three statements (see build_module); this is the display form
+        return f"_t = ({c[2]}); _t {c[1]}= ({c[3]}); _t"
+    if k == "call":
+        return f"{c[1]}(" + ", ".join(f"({a})" for a in c[2]) + ")"
+    if k == "cmp":
+        return f"({c[2]}) {c[1]} ({c[3]})"
+    if k == "chain":
+        return f"({c[1]}) {c[2]} ({c[3]}) {c[4]} ({c[5]})"
     raise ValueError(c)
 
 
@@ -116,6 +157,8 @@ def norm_case(c):
     if c[0] == "seq":
         c[2] = [(bool(m), str(t)) for m, t in c[2]]
         return ("seq", c[1], tuple(c[2]), c[3])
+    if c[0] == "call":
+        return ("call", c[1], tuple(c[2]))
     return tuple(c)
 
 
@@ -161,6 +204,31 @@ def gen_cases(rng, tier):
                 continue
             if n.isidentifier() and not n.startswith("__") or n in ATTR_POOL:
                 cases.append(("attr", a, n))
+    # augmented assignment, builtins divmod / three-argument pow, ==, !=, is, in and chains of them
+    for op in AUGOPS:
+        for a, b in rng.sample(pairs, 110 if quick else 700):
+            if op == "%" and a[:1] in ('"', "b") and a != "bool":
+                continue
+            cases.append(("aug", op, a, b))
+    for a, b in rng.sample(pairs, 250 if quick else 1444):
+        cases.append(("call", "divmod", (a, b)))
+    pw = ["2", "3", "5", "0", "-1", "1.5", '"a"', "None", "True", "IE.x"]
+    trip = [(a, b, c) for a in pw for b in pw for c in pw]
+    for t in (rng.sample(trip, 250) if quick else trip):
+        cases.append(("call", "pow", t))
+    for op in CMPOPS:
+        for a, b in rng.sample(pairs, 140 if quick else 1444):
+            cases.append(("cmp", op, a, b))
+    for _ in range(250 if quick else 3000):
+        a, b, c = (rng.choice(OPERANDS) for _ in range(3))
+        cases.append(("chain", a, rng.choice(CMPOPS), b, rng.choice(CMPOPS), c))
+    # attribute access on instances with __getattr__ / __slots__ / raising properties, and a module with __getattr__
+    for inst, names in INSTANCES.items():
+        for n in names:
+            cases.append(("attr", inst, n))
+    # str / bytes / range / dict literals subscripted by literal keys
+    for a, i in LIT_SUBSCRIPTS:
+        cases.append(("sub", a, i))
     # typed sequences built by tuple / list displays
     n_seq = 900 if quick else 6000
     for _ in range(n_seq):
@@ -198,7 +266,13 @@ def build_module(cases):
     if plain:
         lines.append("def f():")
         for i, c in plain:
-            lines.append(f"    _v{i} = {case_expr(c)}")
+            if c[0] == "aug":
+                lines.append(f"    _t{i} = ({c[2]})")
+                lines.append(f"    _t{i} {c[1]}= ({c[3]})")
+                where[("aug", i)] = len(lines)
+                lines.append(f"    _v{i} = _t{i}")
+            else:
+                lines.append(f"    _v{i} = {case_expr(c)}")
             where[i] = len(lines)
     for i, c in seqs:
         _, kind, ms, key = c
@@ -211,7 +285,7 @@ def build_module(cases):
             lines.append(f"    s = [{elts}]")
         lines.append(f"    _v{i} = s[{key}]")
         where[i] = len(lines)
-    return "\n".join(lines) + "\n", [where[i] for i in range(len(cases))]
+    return "\n".join(lines) + "\n", [(where[i], where.get(("aug", i))) for i in range(len(cases))]
 
 
 def describe_value(v, mod):
@@ -275,11 +349,12 @@ def run_chunk(cases):
     tree = ast.parse(src)
     mod = make_module(src)
     kwargs = NameCheckVisitor.prepare_constructor_kwargs({})
-    with ClassAttributeChecker(enabled=True, options=kwargs["checker"].options) as ac:
-        v = NameCheckVisitor("", src, tree, module=mod, settings={c: True for c in ErrorCode}, attribute_checker=ac,
-                             annotate=True, fail_after_first=False, **kwargs)
-        with contextlib.redirect_stderr(io.StringIO()), contextlib.redirect_stdout(io.StringIO()):
+    with contextlib.redirect_stderr(io.StringIO()), contextlib.redirect_stdout(io.StringIO()):
+        with ClassAttributeChecker(enabled=True, options=kwargs["checker"].options) as ac:
+            v = NameCheckVisitor("", src, tree, module=mod, settings={c: True for c in ErrorCode}, attribute_checker=ac,
+                                 annotate=True, fail_after_first=False, **kwargs)
             errors = v.check_for_test()
+        errors = errors + list(getattr(ac, "all_failures", []))
     by_line = {}
     for e in errors:
         by_line.setdefault(e["lineno"], []).append((e["code"].name, (e.get("message") or e.get("description") or "")[:160]))
@@ -289,8 +364,8 @@ def run_chunk(cases):
             assigns[node.lineno] = node
     ns = mod.__dict__
     out = []
-    for c, ln in zip(cases, linenos):
-        errs = by_line.get(ln, [])
+    for c, (ln, aug_ln) in zip(cases, linenos):
+        errs = by_line.get(ln, []) + (by_line.get(aug_ln, []) if aug_ln else [])
         node = assigns[ln]
         inferred = getattr(node.value, "inferred_value", None)
         rec = {"codes": sorted({code for code, _ in errs}), "messages": [m for _, m in errs][:3], "inferred": describe_value(inferred, mod)}
@@ -300,7 +375,26 @@ def run_chunk(cases):
             with warnings.catch_warnings():
                 warnings.simplefilter("ignore")
                 try:
-                    val = eval(case_expr(c), ns)
+                    if c[0] == "chain":
+                        # a op1 b op2 c short-circuits; the property is about each operation being performed
+                        excs, vals = [], []
+                        for link in (f"({c[1]}) {c[2]} ({c[3]})", f"({c[3]}) {c[4]} ({c[5]})"):
+                            try:
+                                vals.append(bool(eval(link, ns)))
+                            except Exception as ex1:
+                                excs.append(ex1)
+                        for ex1 in excs:  # a TypeError of any link is what must be diagnosed
+                            if isinstance(ex1, TypeError):
+                                raise ex1
+                        if excs:
+                            raise excs[0]
+                        val = all(vals)
+                    elif c[0] == "aug":
+                        loc = {}
+                        exec(f"_t = ({c[2]})\n_t {c[1]}= ({c[3]})", ns, loc)
+                        val = loc["_t"]
+                    else:
+                        val = eval(case_expr(c), ns)
                     rec["oracle"] = {"value": short(val)}
                     if isinstance(inferred, KnownValue):
                         rec["literal_ok"] = same_object(inferred.val, val)
@@ -642,6 +736,31 @@ def known_finding(c, rec, ns_eval):
         for seq, cls in ((a, b), (b, a)):
             if isinstance(seq, (str, bytes, tuple)) and isinstance(cls, type) and hasattr(cls, "__index__"):
                 return "C19-seq-repeat-by-class-object"
+    if k == "aug" and c[1] == "*" and exc == "TypeError" and not diag:
+        a, b = ns_eval(c[2]), ns_eval(c[3])
+        for seq, cls in ((a, b), (b, a)):
+            if isinstance(seq, (str, bytes, tuple)) and isinstance(cls, type) and hasattr(cls, "__index__"):
+                return "C19-seq-repeat-by-class-object"
+    if k in ("cmp", "chain") and exc == "TypeError" and not diag:
+        links = [(c[1], c[2], c[3])] if k == "cmp" else [(c[2], c[1], c[3]), (c[4], c[3], c[5])]
+        for op, a, b in links:
+            if op in ("in", "not in"):
+                x, cont = ns_eval(a), ns_eval(b)
+                if isinstance(cont, bytes) and isinstance(x, type) and hasattr(x, "__index__"):
+                    return "C19-seq-repeat-by-class-object"
+    if k == "aug" and c[1] == "*" and exc == "TypeError" and not diag:
+        a, b = ns_eval(c[2]), ns_eval(c[3])
+        import enum
+
+        if isinstance(a, enum.IntEnum) and isinstance(b, (str, bytes, tuple)):
+            return "C19-inplace-repeat-intenum-member"
+    if k == "call" and c[1] == "pow" and len(c[2]) == 3 and exc == "TypeError" and not diag:
+        return "C19-pow-three-arguments-protocol-overload"
+    if k == "attr" and exc == "AttributeError" and not diag and rec["inferred"]["k"] == "any":
+        obj = ns_eval(c[1])
+        dyn = getattr(type(obj), "__getattr__", None) is not None or (type(obj).__name__ == "module" and "__getattr__" in vars(obj))
+        if dyn and not isinstance(obj, type):
+            return "C19-getattr-override-not-performed"
     if k == "attr" and exc == "AttributeError" and not diag:
         obj = ns_eval(c[1])
         import enum
